@@ -22,7 +22,14 @@ pub enum Recv {
     View { wins: Vec<Win> },
     /// toodee.view_mut(w0).view_mut(w1)...; with `last_shared` the last hop is `.view()` on the
     /// mutable view (the checked variant), giving a shared view
-    ViewMut { wins: Vec<Win>, last_shared: bool },
+    ViewMut {
+        wins: Vec<Win>,
+        last_shared: bool,
+        /// the (last) mutable view is converted with `TooDeeView::from(view_mut)` before the
+        /// iterator is taken (shared iterators only)
+        #[serde(default)]
+        into_view: bool,
+    },
     /// TooDeeView::new(C, R, &buf[..C*R+extra])
     SliceView { extra: usize },
     SliceViewMut { extra: usize },
@@ -631,6 +638,24 @@ fn run_view_mut(v: TooDeeViewMut<'_, u32>, t: &CursorTrace, g: Geo, cx: &mut Ctx
 /// Execute one cursor trace. Ok(None) = skipped (the trace is not executable, e.g. after
 /// minimisation made a window invalid).
 pub fn exec(t: &CursorTrace, stats: &mut CStats) -> Result<bool, CViol> {
+    // Every iterator call is guarded on its own. What is not - building the (valid) windows, the
+    // view-to-view conversion, creating the iterator - must not panic either: a panic raised there
+    // by the crate is a violation; one raised by the simulator's own code is a harness error.
+    match catch_unwind(AssertUnwindSafe(|| exec_inner(t, stats))) {
+        Ok(r) => r,
+        Err(p) => {
+            let file = crate::array_engine::LAST_PANIC_FILE.with(|f| f.borrow().clone());
+            if file.starts_with("/repo/") {
+                let msg = p.downcast_ref::<String>().cloned().or_else(|| p.downcast_ref::<&'static str>().map(|s| s.to_string())).unwrap_or_else(|| "<panic>".into());
+                Err(CViol { kind: "setup_panic".into(), detail: format!("creating the receiver or the iterator panicked in {}: {}", file, msg), step: 0, op: t.iter.name().to_string() })
+            } else {
+                std::panic::resume_unwind(p)
+            }
+        }
+    }
+}
+
+fn exec_inner(t: &CursorTrace, stats: &mut CStats) -> Result<bool, CViol> {
     if t.zst {
         return exec_zst(t, stats);
     }
@@ -665,7 +690,7 @@ pub fn exec(t: &CursorTrace, stats: &mut CStats) -> Result<bool, CViol> {
     *stats.receivers.entry(match &t.receiver {
         Recv::Owned => "owned",
         Recv::View { wins } => if wins.len() > 1 { "view_nested" } else { "view" },
-        Recv::ViewMut { wins, last_shared } => if *last_shared { "view_of_view_mut" } else if wins.len() > 1 { "view_mut_nested" } else { "view_mut" },
+        Recv::ViewMut { wins, last_shared, into_view } => if *last_shared { "view_of_view_mut" } else if *into_view && !t.iter.is_mut() { "view_from_view_mut" } else if wins.len() > 1 { "view_mut_nested" } else { "view_mut" },
         Recv::SliceView { .. } => "view_over_slice",
         Recv::SliceViewMut { .. } => "view_mut_over_slice",
     }).or_insert(0) += 1;
@@ -729,9 +754,12 @@ pub fn exec(t: &CursorTrace, stats: &mut CStats) -> Result<bool, CViol> {
                         }
                     }
                 }
-                Recv::ViewMut { wins, last_shared } => {
+                Recv::ViewMut { wins, last_shared, into_view } => {
                     let mut v0 = arr.view_mut(wins[0].start, wins[0].end);
+                    let conv = *into_view && !t.iter.is_mut() && !*last_shared;
                     match (wins.len(), *last_shared) {
+                        (1, _) if conv => run_view(TooDeeView::from(v0), t, g, &mut cx),
+                        (2, false) if conv => run_view(TooDeeView::from(v0.view_mut(wins[1].start, wins[1].end)), t, g, &mut cx),
                         (1, _) => run_view_mut(v0, t, g, &mut cx),
                         (2, false) => run_view_mut(v0.view_mut(wins[1].start, wins[1].end), t, g, &mut cx),
                         (2, true) => run_view(v0.view(wins[1].start, wins[1].end), t, g, &mut cx),
@@ -836,6 +864,8 @@ fn gen_n(rng: &mut Rng, len: usize, stride: usize) -> usize {
         2 => len.saturating_sub(1),
         3 => len,
         4 => len + 1,
+        // overshoot by up to a couple of rows' worth
+        5 => len + rng.below(2 * stride.min(64) + 2),
         _ => {
             if rng.chance(1, 2) { rng.below(3) } else { rng.below(len + 2) }
         }
@@ -892,9 +922,14 @@ pub fn gen_trace(rng: &mut Rng, prop: &str, thorough: bool) -> CursorTrace {
             if want_mut { Recv::SliceViewMut { extra: rng.below(4) } } else { Recv::SliceView { extra: rng.below(4) } }
         }
         4 | 5 | 6 => {
-            if want_mut { Recv::ViewMut { wins: wins.clone(), last_shared: false } } else { Recv::View { wins: wins.clone() } }
+            if want_mut { Recv::ViewMut { wins: wins.clone(), last_shared: false, into_view: false } } else { Recv::View { wins: wins.clone() } }
         }
-        _ => Recv::ViewMut { wins: wins.clone(), last_shared: wins.len() > 1 && !want_mut },
+        _ => {
+            // shared iterators over a mutable view: through a shared sub-view of it, or after
+            // converting it with `TooDeeView::from`
+            let conv = !want_mut && rng.chance(1, 2);
+            Recv::ViewMut { wins: wins.clone(), last_shared: wins.len() > 1 && !want_mut && !conv, into_view: conv }
+        }
     };
     let (wc, wr) = match &receiver {
         Recv::Owned | Recv::SliceView { .. } | Recv::SliceViewMut { .. } => (cols, rows),
@@ -1235,7 +1270,7 @@ fn exec_zst(t: &CursorTrace, stats: &mut CStats) -> Result<bool, CViol> {
                 }
             }
         }
-        Recv::ViewMut { wins, last_shared } => {
+        Recv::ViewMut { wins, last_shared, .. } => {
             let mut v0 = arr.view_mut(wins[0].start, wins[0].end);
             match (wins.len(), *last_shared) {
                 (1, _) => if m { mutable(&mut v0, t, total, item_len, num_cols, col_oob, stats) } else { shared(&v0, t, total, item_len, num_cols, col_oob, stats) },
@@ -1305,7 +1340,7 @@ pub fn gen_trace_zst(rng: &mut Rng, prop: &str) -> CursorTrace {
     let receiver = if wins.is_empty() {
         Recv::Owned
     } else if want_mut || rng.chance(1, 3) {
-        Recv::ViewMut { wins: wins.clone(), last_shared: false }
+        Recv::ViewMut { wins: wins.clone(), last_shared: false, into_view: false }
     } else {
         Recv::View { wins: wins.clone() }
     };
